@@ -572,15 +572,20 @@ class SimCondition(object):
         return self._lock.__exit__(*a)
 
     def _release_all(self):
-        n = 0
-        if isinstance(self._lock, SimRLock):
-            while getattr(self._lock, "_count", 0) > 0:
-                self._lock.release()
-                n += 1
-        else:
-            self._lock.release()
-            n = 1
-        return n
+        """Give the lock up completely (whatever its recursion depth); returns how to restore it."""
+        lk = self._lock
+        if isinstance(lk, SimRLock):
+            if lk._owner is None:
+                raise RuntimeError("cannot wait on un-acquired lock")
+            n = lk._count
+            lk._count = 0
+            lk._owner = None
+            s = _CURRENT
+            if s is not None:
+                s.wake(lk)
+            return n
+        lk.release()
+        return 1
 
     def wait(self, timeout=None):
         s = _CURRENT
@@ -600,8 +605,9 @@ class SimCondition(object):
                 s.force_yield("cond.wait.timed")
                 continue
             s.block_on(self)
-        for _ in range(n):
-            self._lock.acquire()
+        self._lock.acquire()
+        if isinstance(self._lock, SimRLock):
+            self._lock._count = n
         return got
 
     def wait_for(self, predicate, timeout=None):
